@@ -74,6 +74,9 @@ def wrapper_ops(shape):
         ops += [("add_role_for_user", "bob", "root"), ("add_role_for_user", "alice", "admin"), ("delete_role_for_user", "alice", "admin"), ("delete_role_for_user", "alice", "root")]
     else:
         ops += [("delete_roles_for_user_in_domain", "alice", "admin", "d1")]
+    # management calls whose async twins have their own code: filtered update, batch and filtered removal, updates
+    ops += ec.updatefiltered_ops(shape)
+    ops += [o for o in ec.op_alphabet(shape) if o[0] in ("addmany", "removemany", "removefiltered", "update", "updatemany", "removeread", "updateread")]
     return ops
 
 
